@@ -268,6 +268,7 @@ pub struct Sub {
     pub transitions: u64,
     pub notes: Vec<String>,
     pub wall_ms: u64,
+    pub degenerate: Option<String>,
 }
 
 impl Sub {
@@ -290,6 +291,7 @@ impl Sub {
             transitions: 0,
             notes: Vec::new(),
             wall_ms: 0,
+            degenerate: None,
         }
     }
 
@@ -408,6 +410,17 @@ impl Sub {
         self.transitions += o.transitions;
         self.notes.extend(o.notes);
         self.wall_ms = self.wall_ms.max(o.wall_ms);
+        if self.degenerate.is_none() {
+            self.degenerate = o.degenerate;
+        }
+    }
+
+    /// Vacuity guard: the class must make up at least `min_permille` of the evaluations.
+    pub fn floor(&mut self, class: &str, min_permille: u64) {
+        let c = self.classes.get(class).copied().unwrap_or(0);
+        if self.evals > 0 && c * 1000 < self.evals * min_permille {
+            self.degenerate = Some(format!("class '{}' has {} of {} cases, below the floor of {} permille", class, c, self.evals, min_permille));
+        }
     }
 
     pub fn distinct_nontrivial(&self) -> u64 {
@@ -446,6 +459,7 @@ impl Sub {
             "samples": self.samples,
             "notes": self.notes,
             "wall_ms": self.wall_ms,
+            "generator_degenerate": self.degenerate,
             "failures": self.failures.values().map(|f| json!({"sig": f.sig, "count": f.count, "detail": f.detail, "case": f.case})).collect::<Vec<_>>(),
         })
     }
@@ -879,7 +893,16 @@ pub fn finish(
         violations,
         wall
     );
-    Finish { exit_code: if lines.is_empty() { 0 } else { 1 } }
+    let mut code = if lines.is_empty() { 0 } else { 1 };
+    if code == 0 {
+        for sub in &report.subs {
+            if let Some(d) = &sub.degenerate {
+                eprintln!("check: generator degenerate in sub-check {}: {} (infrastructure problem, not a verdict)", sub.name, d);
+                code = 2;
+            }
+        }
+    }
+    Finish { exit_code: code }
 }
 
 // ---------------------------------------------------------------------------------------------
